@@ -82,6 +82,7 @@ type response struct {
 	Pass2   []int          `json:"pass2,omitempty"`
 	Lookups []lookupRes    `json:"lookups,omitempty"`
 	Results [][]string     `json:"results,omitempty"`
+	Spans   [][][2]int     `json:"spans,omitempty"` // per client, per call: operation counter at its start and end
 	Chosen  []int          `json:"chosen,omitempty"`
 	Shimmed bool           `json:"shimmed"`
 	Viol    []string       `json:"viol,omitempty"`
@@ -349,6 +350,7 @@ func runClientOp(c *cache.Cache, o clientOp) (s string) {
 
 func doConc(req *request) (resp response) {
 	results := make([][]string, len(req.Clients))
+	spans := make([][][2]int, len(req.Clients))
 	var fns []func()
 	caches := make([]*cache.Cache, len(req.Clients))
 	var one *cache.Cache
@@ -368,12 +370,15 @@ func doConc(req *request) (resp response) {
 		c := caches[i]
 		fns = append(fns, func() {
 			for _, o := range ops {
-				results[i] = append(results[i], runClientOp(c, o))
+				st := ctlCount()
+				r := runClientOp(c, o)
+				results[i] = append(results[i], r)
+				spans[i] = append(spans[i], [2]int{st, ctlCount()})
 			}
 		})
 	}
 	chosen, err := ctlRunScheduled(fns, req.Schedule)
-	resp.Results, resp.Chosen, resp.Log = results, chosen, ctlLog()
+	resp.Results, resp.Chosen, resp.Log, resp.Spans = results, chosen, ctlLog(), spans
 	resp.Res = "ok"
 	if err != nil {
 		resp.Res, resp.Err = "err", err.Error()
@@ -442,6 +447,25 @@ func doStress(req *request) (resp response) {
 			}
 			r := rand.New(rand.NewSource(req.Seed*1000 + int64(req.Proc)*100 + int64(g)))
 			sizes := []int{0, 1, 50, 3000, 70000}
+			defer func() {
+				// once every writer of every process has finished (they share the deadline), each
+				// goroutine looks up, through the handle it has used all along, the ids this process
+				// has stored: they must be readable whatever this handle saw earlier
+				time.Sleep(700 * time.Millisecond)
+				for idx := 0; idx < 6; idx++ {
+					mu.Lock()
+					stored := resp.Counts[fmt.Sprintf("stored-id%d", idx)] > 0 || idx >= 4
+					mu.Unlock()
+					if !stored {
+						continue
+					}
+					if b, _, err := c.GetBytes(stressID(idx)); err != nil {
+						viol(fmt.Sprintf("quiescent-readable: after all writers finished, GetBytes(id%d) through a handle that had been in use misses: %v", idx, err))
+					} else if !checkPayload(idx, b) {
+						viol(fmt.Sprintf("foreign-data: final GetBytes(id%d) returned bytes never stored for that id", idx))
+					}
+				}
+			}()
 			for time.Now().Before(deadline) {
 				idx := r.Intn(6)
 				id := stressID(idx)
@@ -455,6 +479,8 @@ func doStress(req *request) (resp response) {
 					}
 					if err := c.PutBytes(id, d); err != nil {
 						viol(fmt.Sprintf("put-failed: PutBytes(id%d) failed without any injected fault: %v", idx, err))
+					} else {
+						count(fmt.Sprintf("stored-id%d", idx))
 					}
 					count("put")
 				case 1:
